@@ -26,8 +26,8 @@ Definition w_P : params := mkParams 4 0 2 true 1.
 Definition w_ops1 : list cop := [ONewBlock; OCommitTo 1; ONewBlock; OCommitTo 2; ONewBlock; ONewBlock; OCommitTo 4].
 Definition w_ops2 : list cop := [ONewBlock; ONewBlock; OCommitTo 2; ONewBlock; ONewBlock; OCommitTo 4].
 
-Definition w_run (ops : list cop) : cstate ckey cval :=
-  crun ckey_dec cval_eqb cclass (cleaf sha512_256) sha512_256 w_P w_hist (init_state w_g [] [128]) ops.
+Notation w_run ops :=
+  (crun ckey_dec cval_eqb cclass (cleaf sha512_256) sha512_256 w_P w_hist (init_state w_g [] [128]) ops).
 
 Lemma w_collision : forall H, cleaf H wk1 wv1 = cleaf H wk2 wv2.
 Proof. intros H. reflexivity. Qed.
@@ -80,7 +80,7 @@ Lemma label_schedule_dependent_refuted :
     l1 <> l2.
 Proof.
   exists w_hist, w_g, [], [128], w_P, w_ops1, w_ops2, 4, w_label1, w_label2.
-  destruct w_labels as (A & B & _). unfold w_run in A, B.
+  destruct w_labels as (A & B & _).
   split; [exact w_genesis_ok|]. split; [exact w_kv_old_ok|]. split; [intros E; inversion E|].
   rewrite A, B.
   split; [left; reflexivity|]. split; [left; reflexivity|]. exact w_labels_differ.
